@@ -728,6 +728,74 @@ def body_long(case, ctx):
 
 
 # ---------------------------------------------------------------------------
+# law 9: every state and every transition of the automaton, through one word each
+def body_state_cover(case, ctx):
+    S = Setup(case, ctx)
+    RX = T.RootOracle(S.m, exact=True, prec=90)
+    deepest = 0
+    for shortlex in (False, True):
+        aut = S.G.automaton(shortlex=shortlex)
+        tag = "shortlex" if shortlex else "geodesic"
+        start = aut.start_vertices[0]
+        rep = {start: ()}
+        order = [start]
+        for v in order:
+            for lab, h in sorted(aut.graph_dict[v].items(), key=lambda kv: S.names.index(kv[0])):
+                if h not in rep:
+                    rep[h] = rep[v] + (S.names.index(lab),)
+                    order.append(h)
+        ctx.check(set(rep) == set(aut.vertices()), "every state is reachable from the start state",
+                  unreachable=len(set(aut.vertices()) - set(rep)))
+        deepest = max(deepest, max(len(w) for w in rep.values()))
+
+        def status(w):
+            return RX.is_shortlex(w) if shortlex else RX.is_reduced(w)
+        # all states when there are few, else the deepest ones and a spread of the others
+        chosen = order if len(order) <= 60 else order[-30:] + order[1:-30:max(1, len(order) // 30)]
+        for v in chosen:
+            w = rep[v]
+            ctx.check(status(w), "the %s automaton reaches a state through a word outside the "
+                      "language" % tag, word=S.w(w), matrix=S.m)
+            for s in range(S.n):
+                w2 = w + (s,)
+                want = status(w2)
+                got = accepts(aut, S.w(w2))
+                ctx.check(got == want, "%s automaton %s a word (state representative + letter)"
+                          % (tag, "accepts" if got else "rejects"), word=S.w(w2), matrix=S.m)
+                if not want:
+                    continue
+                h = aut.graph_dict[v][S.names[s]]
+                if rep[h] == w2:
+                    continue
+                # a transition that is not in the breadth-first tree: the target state was
+                # reached first through another word; it has to serve this word as well
+                for t in range(S.n):
+                    w3 = w2 + (t,)
+                    want3 = status(w3)
+                    got3 = accepts(aut, S.w(w3))
+                    ctx.check(got3 == want3, "%s automaton %s a word (representative + two "
+                              "letters, through a state shared with another word)"
+                              % (tag, "accepts" if got3 else "rejects"), word=S.w(w3),
+                              other_word_of_the_state=S.w(rep[h]), matrix=S.m)
+        ctx.label("states<=60" if len(order) <= 60 else "states>60")
+    S.label(ctx, deepest)
+    if deepest >= 12:
+        ctx.label("depth>=12")
+
+
+@st.composite
+def cover_case(draw):
+    case = draw(coxeter_case(ranks=(2, 3, 3, 4, 4, 5)))
+    case["L"] = 0
+    return case
+
+
+def exhaustive_cover(tier):
+    doms = exhaustive_domains(with_rank4=(tier != "quick"))(tier)
+    return doms
+
+
+# ---------------------------------------------------------------------------
 def _law(name, strategy, body, nontrivial, **kw):
     law = Law(name, strategy, body, nontrivial, **kw)
     law.ex_shards = {"quick": 4, "thorough": 16}
@@ -752,4 +820,6 @@ LAWS = [
     _law("faithful_images_distinct", coxeter_case(), body_images, nt, quick=40, thorough=300,
          shards=(1, 4), exhaustive=exhaustive_domains(scale=0.75)),
     _law("long_words", long_case(), body_long, nt, quick=60, thorough=600, shards=(2, 8)),
+    _law("state_cover", cover_case(), body_state_cover, nt, quick=30, thorough=300, shards=(2, 8),
+         exhaustive=exhaustive_cover),
 ]
